@@ -233,3 +233,73 @@ def r_cap_wrappers(F, V):
                 R.inst(key, "forwards to %s" % sorted(set(callee_path(t) for _, t in core)), "ok", True, where(b))
     R.floor("capacity wrappers", n, 12)
     return R
+
+
+# --------------------------------------------------------------------- R-SIBLING-FORWARD
+
+LAYER_BELOW = {"set::HashSet": ("map::HashMap", "map"), "map::HashMap": ("raw::RawTable", "raw"), "table::HashTable": ("raw::RawTable", "raw")}
+# wrappers that deliberately use a differently named operation of the layer below although a same-named one exists
+# (each confirmed by reading; one line of reason per exception)
+SIBLING_EXCEPTIONS = {
+    "set::HashSet::iter": "a set iterates the keys of its map (HashMap::keys); HashMap::iter would yield pairs",
+    "set::HashSet::get": "returns the stored element, i.e. the key of the map entry: HashMap::get_key_value(..).0 (HashMap::get returns the unit value)",
+    "map::HashMap::insert": "one search with find_or_find_insert_slot, then insert_in_slot / replace in place (RawTable::insert would not look for an existing key)",
+    "table::HashTable::find": "returns &T: RawTable::get is RawTable::find + as_ref",
+}
+
+
+def r_sibling_forward(F, V):
+    """Deviant forwarding between the layers (HashSet -> HashMap -> RawTable <- HashTable): when the layer below has an
+    operation with the SAME NAME as the wrapper (or implements the same trait method) the wrapper uses it.  A wrapper that
+    bypasses its namesake for a sibling (try_reserve -> reserve, clone_from -> the table's clone_from, shrink_to_fit ->
+    something else) silently drops what the namesake adds (fallibility, the hasher copy, ...)."""
+    R = Result("R-SIBLING-FORWARD", F.cfg)
+    methods = {}
+    for p in F.bodies:
+        if "::{closure" in p:
+            continue
+        a, _, m = p.rpartition("::")
+        methods.setdefault(a, set()).add(m)
+    n = 0
+    for X, (Y, ymod) in LAYER_BELOW.items():
+        xmod, xname = X.split("::")
+        yname = Y.split("::")[1]
+        for p, b in F.bodies.items():
+            if "::{closure" in p:
+                continue
+            owner, _, m = p.rpartition("::")
+            if owner == X:
+                namesake = "%s::%s" % (Y, m)
+                has_namesake = m in methods.get(Y, ())
+            elif owner.startswith("%s::<%s as " % (xmod, xname)):
+                tr = owner[len("%s::<%s as " % (xmod, xname)):]
+                yowner = "%s::<%s as %s" % (ymod, yname, tr)
+                # trait generic arguments mention the type itself: compare on the trait name only
+                trname = tr.split("<")[0].rstrip(">")
+                cands = [o for o in methods if o.startswith("%s::<%s as %s" % (ymod, yname, trname)) and m in methods[o]]
+                has_namesake = bool(cands)
+                namesake = (cands[0] + "::" + m) if cands else None
+            else:
+                continue
+            reach = [p] + [c for c in F.bodies if c.startswith(p + "::{closure")]
+            called = set()
+            for q in reach:
+                for i, t in F.bodies[q].calls():
+                    cp = callee_path(t) or ""
+                    if cp.startswith(Y + "::") or cp.startswith("%s::<%s as " % (ymod, yname)):
+                        called.add(cp)
+            if not called or not has_namesake:
+                continue
+            n += 1
+            key = p + "|namesake"
+            names = set(c.rpartition("::")[2] for c in called)
+            if m in names:
+                R.inst(key, "uses its namesake %s" % namesake, "ok", True, where(b))
+            elif p in SIBLING_EXCEPTIONS:
+                R.inst(key, "listed exception: %s" % SIBLING_EXCEPTIONS[p], "exempt", False, where(b))
+            else:
+                R.violation(key, b, "%s calls %s of the layer below but not its namesake %s, which exists: whatever the namesake adds (error reporting instead of panicking, copying the hasher "
+                            "together with the table, the empty/zero special cases, ...) is bypassed" % (p, sorted(called), namesake))
+                R.inst(key, "namesake bypassed", "violation", True, where(b))
+    R.floor("wrappers with a namesake below", n, 40)
+    return R
